@@ -87,6 +87,7 @@ def run_tlc(
         "java",
         "-XX:+UseParallelGC",
         f"-Xmx{heap}",
+        "-Xss64m",
         "-Dtlc2.TLC.ide=vf",
         "-cp",
         f"{JAR}:{DEPS}",
